@@ -395,9 +395,16 @@ func (e *Evaluator) evalCaseMatch(value *Cell, exprs []Expr) (bool, map[string]*
 
 			return true, bindings, nil
 		case *ExprIdentifier:
+			// the name is a new variable holding the matched value: scalars are
+			// copied (assigning to the name must not write through to the subject)
+			bound, err := copyValue(value, &Cell{})
+			if err != nil {
+				// functions cannot be copied (nor modified): bind them as they are
+				bound = value
+			}
 			bindings := make(map[string]*Cell)
 			ident := e.lexer.GetString(&ex.token)
-			bindings[ident] = value
+			bindings[ident] = bound
 			return true, bindings, nil
 		default:
 			return false, nil, e.error(expr.Token(), fmt.Sprintf("%s not supported in match expressions", expr))
